@@ -3,7 +3,7 @@
   concerned — job tasks, window slots, the main loop's reaction to `asyncio.wait`, nesting.
   Everything that decides *when a run leaves its main loop*, what it cancels, what it returns and how
   it shuts down is left open here (events `waitReturn … leave K`, `leave`, `finish` may happen for
-  any reason): the theorems proved on this layer (C01, C02 at-most-once, C07, C12, C14) hold whatever
+  any reason; `extCancel`, the request to cancel the top-level task from outside, only sets `creq 0`): the theorems proved on this layer (C01, C02 at-most-once, C07, C12, C14) hold whatever
   that logic does.  Layer B (`AJ/Model/Full.lean`) pins those choices down and refines this one.
 
   Transcribes (after the repairs recorded in known_findings.json):
@@ -130,6 +130,9 @@ inductive EvA
   | finish (s : Nat) (r : Option Res)
   /-- the clock advances -/
   | tick (d : Nat)
+  /-- someone outside the tree calls `cancel()` on the task that runs `co_run()` of the top-level scheduler while it
+      runs (`task.cancel()`, `asyncio.wait_for(top.co_run(), …)` expiring); at most one such request is modelled -/
+  | extCancel
   deriving Repr, Inhabited
 
 def setAt {α : Type} (f : Nat → α) (j : Nat) (v : α) : Nat → α := fun k => if k = j then v else f k
@@ -229,6 +232,12 @@ def stepA (c : Cfg) (st : StA) : EvA → Option StA
        (∀ j ∈ List.range c.n, ¬ (0 < j ∧ st.ph j = .queued ∧ st.creq j = false ∧ slotFree c st (c.parent j) = true)) ∧
        (∀ s ∈ List.range c.n, ¬ (c.isSched s = true ∧ st.pc s = .loop ∧ (doneSet c st s ≠ [] ∨ st.rx s ≠ none))) then
       some { st with now := st.now + d }
+    else none
+  | .extCancel =>
+    -- the request only: what the `CancelledError` does to `co_run` once delivered is the business of layer B
+    -- (`cancelArrive 0`); here `leave 0 K` / `finish 0 none` may happen for any reason anyway
+    if st.ph 0 = .running ∧ st.creq 0 = false then
+      some { st with creq := setAt st.creq 0 true }
     else none
 
 /-- the histories layer A accepts, and the state they lead to -/
